@@ -147,3 +147,14 @@ prop("C14", run="^TestC14", level="exploration",
      text="Exhaustive enumeration of nil sources / null destinations for scalars plus randomised nested null placement.",
      note="Trusted: gen value engine; the accepted-type table typed in from datacodec/doc.go and the codecs' type switches.",
      technique="property-based testing: exhaustive scalar enumeration + rapid-generated nested null placement", design="DESIGN.md 4 C14")
+
+prop("C17", run="^TestC17", level="exploration",
+     quick=(16, 40, 900), thorough=(16, 2500, 7200),
+     rule="every type with a deep-copy operation (66 registry entries, checked against the DeepCopy* receivers found in the working tree) x values filled reflectively from rapid draws (all exported fields; pointers non-nil 90%; slices/maps nil, empty or 1..3 elements, "
+          "slices with spare capacity; interface fields holding random registry members, nested to depth ~4) x every available operation (DeepCopy, DeepCopyInto, DeepCopyMessage, DeepCopyDataType). Oracle: reflect.DeepEqual(copy, original); every mutable location reachable "
+          "from the copy (slice elements first/last, append within capacity, nil-ing elements, map replace/delete/insert, pointer targets, nested structs; up to 400 mutations per value) is mutated while a full dump of the original must not change; then the reverse. "
+          "Non-trivial = the value has at least one pointer/slice/map populated; distinct by (type, value hash); TestC17AllTypes runs every registry type each run",
+     assumptions=["datatype.PrimitiveType has only an unexported field and is used through shared exported singletons: not mutable through the API, only equality is checked"],
+     text="Randomised exploration with a reflective filler and an exhaustive-per-value mutation walker, over an exhaustive list of copy-capable types.",
+     note="Trusted: the reflective filler/mutation walker and canon.RenderFull as the observation function.",
+     technique="property-based testing (rapid): reflective value generation + mutation non-interference oracle over all copy-capable types", design="DESIGN.md 4 C17", exhaustive_claim=False)
